@@ -24,6 +24,10 @@ type vfC03Cfg struct {
 	Session   string `json:"session"` // "" | optional | mandatory
 	Resumable bool   `json:"resumable"`
 	Variant   int    `json:"variant"` // cosmetic variations of the OK replies
+	// PriorFailed: before the scripted connection the same Client made one attempt against a server that
+	// advertised everything (STARTTLS offered, mandatory session, stream management) and refused the bind.
+	// What the client learnt there must not leak into the next attempt.
+	PriorFailed bool `json:"prior_failed,omitempty"`
 }
 
 type vfC03Case struct {
@@ -60,16 +64,17 @@ func vfC03Devs(step string) []string {
 }
 
 type vfC03PeerLog struct {
-	reached    []string // steps answered OK
-	deviated   bool
-	devDone    bool
-	pipelined  []string
-	order      []string
-	bindOK     bool
-	resumedOK  bool
-	scriptErr  string
-	applicable bool // the deviation point was actually reached
-	refused    bool // the resumption was refused (a legitimate answer)
+	reached     []string // steps answered OK
+	deviated    bool
+	devDone     bool
+	pipelined   []string
+	order       []string
+	bindOK      bool
+	resumedOK   bool
+	scriptErr   string
+	applicable  bool   // the deviation point was actually reached
+	refused     bool   // the resumption was refused (a legitimate answer)
+	unsolicited string // a negotiation request the client sent after the server had completed its script
 }
 
 func vfC03Play(pc *vfPeerConn, cs *vfC03Case, scripted bool, tlsCfg *tls.Config, lg *vfC03PeerLog) {
@@ -381,7 +386,7 @@ func vfC03Run(run *vfkit.Run, cs *vfC03Case) {
 	cfg := cs.Cfg
 	logs := []*vfC03PeerLog{{}, {}}
 	scriptedConn := 0
-	if cfg.Resumable {
+	if cfg.Resumable || cfg.PriorFailed {
 		scriptedConn = 1
 	}
 	firstUp := make(chan struct{})
@@ -394,7 +399,9 @@ func vfC03Run(run *vfkit.Run, cs *vfC03Case) {
 		if pc.N == scriptedConn {
 			vfC03Play(pc, cs, true, srvTLS, logs[pc.N])
 			if !logs[pc.N].devDone {
-				// success path: read whatever follows (initial presence, stream close) until the client goes away
+				// success path: read whatever follows (initial presence, stream close) until the client goes away.
+				// A further negotiation request (session, enable, resume, starttls, bind, auth) was not solicited by
+				// anything this server offered: the client left the protocol order.
 				for {
 					e, err := pc.Next()
 					if err != nil {
@@ -402,10 +409,36 @@ func vfC03Run(run *vfkit.Run, cs *vfC03Case) {
 					}
 					if e.Kind == "close" {
 						pc.Send("</stream:stream>")
+						continue
+					}
+					if e.Is(vfNSSM, "enable") || e.Is(vfNSSM, "resume") || e.Is(vfNSTLS, "starttls") || e.Is(vfNSSASL, "auth") ||
+						(e.Is("", "iq") && (e.Child("session") != nil || e.Child("bind") != nil)) {
+						if logs[pc.N].unsolicited == "" {
+							logs[pc.N].unsolicited = e.Local
+							if c := e.Child("session"); c != nil {
+								logs[pc.N].unsolicited = "session"
+							}
+						}
+						pc.Close() // a server would not answer; do not keep the client waiting
+						return
 					}
 				}
 			}
 			return
+		}
+		if cfg.PriorFailed {
+			// a server advertising everything, whose bind fails: the client's first attempt
+			rich := &vfC03Case{Cfg: vfC03Cfg{Insecure: true, TLS: "absent", SMReq: cfg.SMReq, SMAdv: true, Session: "mandatory"}, Step: "S8-bind", Dev: "fail"}
+			vfC03Play(pc, rich, true, srvTLS, logs[0])
+			for {
+				e, err := pc.Next()
+				if err != nil {
+					return
+				}
+				if e.Kind == "close" {
+					pc.Send("</stream:stream>")
+				}
+			}
 		}
 		// first, clean session that leaves resumable state behind
 		first := &vfC03Case{Cfg: cfg}
@@ -453,7 +486,15 @@ func vfC03Run(run *vfkit.Run, cs *vfC03Case) {
 	}
 	var cerr error
 	var returned bool
-	if cfg.Resumable {
+	if cfg.PriorFailed {
+		close(release)
+		e0, ok := call(c.Connect)
+		if !ok || e0 == nil {
+			run.Inconclusive("prior-attempt-did-not-fail")
+			return
+		}
+		cerr, returned = call(c.Connect)
+	} else if cfg.Resumable {
 		e0, ok := call(c.Connect)
 		if !ok || e0 != nil {
 			close(release)
@@ -497,6 +538,10 @@ func vfC03Run(run *vfkit.Run, cs *vfC03Case) {
 		run.Count("deviation_point_not_reached", 1)
 		return // this configuration never reaches the step (e.g. no STARTTLS): nothing to decide
 	}
+	if lg.unsolicited != "" && !lg.deviated {
+		run.Violation("C03/request-for-feature-not-offered:"+lg.unsolicited, fmt.Sprintf("the server completed every step it offered (%v); the client then sent an unsolicited <%s> request (order so far %s); Connect returned %v", lg.reached, lg.unsolicited, strings.Join(lg.order, ","), cerr), cs)
+		return
+	}
 	tlsPossible := cfg.TLS != "absent"
 	expectOK := !lg.deviated && !lg.refused && (tlsPossible || cfg.Insecure) && lg.scriptErr == ""
 	if lg.scriptErr != "" && !lg.deviated && (tlsPossible || cfg.Insecure) {
@@ -508,6 +553,9 @@ func vfC03Run(run *vfkit.Run, cs *vfC03Case) {
 	wantEst := 0
 	if cfg.Resumable {
 		wantEst = 1
+	}
+	if cfg.PriorFailed {
+		run.Count("retries_after_failed_attempt", 1)
 	}
 	if expectOK {
 		if cerr != nil {
@@ -612,6 +660,7 @@ func vfC03Configs(r *rand.Rand, n int) []vfC03Cfg {
 		vfC03Cfg{Insecure: true, TLS: "absent", Resumable: true, SMReq: true, SMAdv: true, Variant: 2},
 		vfC03Cfg{Insecure: false, TLS: "offered", Resource: true, SMReq: false, SMAdv: true, Session: "mandatory", Variant: 3},
 		vfC03Cfg{Insecure: false, TLS: "absent", Variant: 4},
+		vfC03Cfg{Insecure: true, TLS: "absent", PriorFailed: true, Session: "", Variant: 5},
 	)
 	for len(out) < n {
 		c := vfC03Cfg{Insecure: r.Intn(2) == 0, TLS: []string{"absent", "offered", "required"}[r.Intn(3)], Resource: r.Intn(2) == 0, SMReq: r.Intn(2) == 0,
@@ -619,6 +668,9 @@ func vfC03Configs(r *rand.Rand, n int) []vfC03Cfg {
 		if c.Resumable {
 			c.TLS, c.Insecure = "absent", true // transport security across reconnects is C04's subject
 			c.SMReq, c.SMAdv = true, true
+		} else if r.Intn(5) == 0 {
+			c.PriorFailed = true
+			c.TLS, c.Insecure = "absent", true
 		}
 		out = append(out, c)
 	}
@@ -639,7 +691,7 @@ func TestVf_C03(t *testing.T) {
 		return
 	}
 	r := vfkit.Rand(3)
-	cfgs := vfC03Configs(r, vfkit.Pick(6, 40))
+	cfgs := vfC03Configs(r, vfkit.Pick(7, 40))
 	var cases []*vfC03Case
 	for _, cfg := range cfgs {
 		cases = append(cases, &vfC03Case{Cfg: cfg})
